@@ -82,7 +82,8 @@ def rule_start_depends_on_cap(ctx):
 
 
 def _last(name):
-    return name.split("::")[-1]
+    from engine.names import stdseg
+    return stdseg(name)
 
 
 class _Window:
@@ -210,7 +211,7 @@ def rule_window_contains_sp(ctx):
     for bi, t in cps:
         a = o.call_args(bi)
         src, ln = a[1], a[2]
-        gsi = [s for s in walk(src) if s[0] == "call" and _last(s[1]) == "get_stack_info"]
+        gsi = [s for s in walk(src) if s[0] == "call" and s[1].split("::")[-1] == "get_stack_info"]
         if not gsi:
             ctx.unproven(R, "copy", b.where(bi), "the copy source is not derived from get_stack_info: %s" % show(src)[:120])
             continue
@@ -569,7 +570,7 @@ def rule_who_is_shortened(ctx, R="C06/who-is-shortened"):
             loops = b.loops()
             inner = [h for h, body in loops.items() if d[1] in body]
             h = max(inner, key=lambda x: len(loops[x])) if inner else 0
-            dnf = conditions(b, d[1], origin=o, entry=h, relevant=lambda a_: (a_[0] == "call" and a_[1].endswith("Option::is_some")) or (a_[0] == "bin" and a_[1] in ("Ge", "Gt", "Lt", "Le") and any(s[0] == "field" and s[2] == "0" for s in walk(a_))))
+            dnf = conditions(b, d[1], origin=o, entry=h, relevant=lambda a_: (a_[0] == "call" and a_[1].endswith("Option::is_some")) or (a_[0] == "call" and a_[1] in ctx.prog.by_short and len(a_[2]) == 1) or (a_[0] == "bin" and a_[1] in ("Ge", "Gt", "Lt", "Le") and any(s[0] == "field" and s[2] == "0" for s in walk(a_))))
             # evaluate over idx
             idx_leaf = None
             for c in dnf or []:
@@ -578,11 +579,21 @@ def rule_who_is_shortened(ctx, R="C06/who-is-shortened"):
                         for side in (a_[2], a_[3]):
                             if not is_const(core(side)):
                                 idx_leaf = core(side)
+                    elif a_[0] == "call" and a_[1] in ctx.prog.by_short and not is_const(core(a_[2][0])):
+                        idx_leaf = core(a_[2][0])      # a one-argument bool helper of the crate (`is_extra_thread(idx)`): evaluated through its body
             good = dnf is not None and idx_leaf is not None
             if good:
                 for i in (0, 1, 19, 20, 21, 64, 1 << 20):
                     for some in (0, 1):
-                        opaque = {a_: some for c in dnf for (a_, v) in c if a_[0] == "call"}
+                        opaque = {a_: some for c in dnf for (a_, v) in c if a_[0] == "call" and a_[1] not in ctx.prog.by_short}
+                        try:
+                            for c in dnf:
+                                for (a_, v) in c:
+                                    if a_[0] == "call" and a_[1] in ctx.prog.by_short:
+                                        opaque[a_] = int(bool_fn_truth(ctx.prog, ctx.prog.by_short[a_[1]][0], lambda e_, i=i: (i, "usize") if core(e_) == ("param", 1) else None))
+                        except ipe.Unsupported:
+                            good = False
+                            break
                         def rw(a_):
                             return ("bin", a_[1], core(a_[2]), core(a_[3]), "usize") if a_[0] == "bin" else a_
                         ev = ipe.Eval({idx_leaf: i}, opaque)
